@@ -129,6 +129,15 @@ pub fn errors_after_death(v: &View, vd: &mut Verdict, prop: &str) {
                         );
                     }
                 }
+                // halt / try_halt that were waiting for the end report how it ended
+                OpWhat::Halt | OpWhat::TryHalt if o.was_pending => {
+                    if o.ok() != graceful {
+                        vd.fail(
+                            format!("{prop}/halt_result/{:?}/graceful={graceful}", o.what),
+                            format!("client {} op {} {:?} waited for actor {a} across its end (graceful={graceful}) and got {:?}", o.client, o.op, o.what, o.res),
+                        );
+                    }
+                }
                 _ => {}
             }
         }
